@@ -3753,6 +3753,47 @@ fn main() {
             println!("views={}", views.join("|"));
             println!("views_ok={}", ok);
         }
+        // exhausted_iterator_pin : an iterator is scanned to its end (it becomes invalid) and kept alive; the data is overwritten, flushed and
+        // compacted (with the obsolete-file sweeps); the table the iterator read must stay on disk and a second scan through the same
+        // iterator must show the same state
+        "exhausted_iterator_pin" => {
+            use raindb::{RainDbIterator, ReadOptions, WriteOptions};
+            let mut o = raindb::DbOptions::with_memory_env();
+            o.db_path = "db".to_string();
+            o.create_if_missing = true;
+            let db = raindb::DB::open(o.clone()).expect("open");
+            db.put(WriteOptions::default(), b"a".to_vec(), b"1".to_vec()).unwrap();
+            db.put(WriteOptions::default(), b"b".to_vec(), b"1".to_vec()).unwrap();
+            let _ = db.flush_for_verif();
+            let pinned = *v::table_numbers(&o).last().expect("a table");
+            let mut it = db.new_iterator(ReadOptions::default()).unwrap();
+            let scan = |it: &mut dyn RainDbIterator<Key = Vec<u8>, Error = raindb::RainDBError>| {
+                let mut view = vec![];
+                let _ = it.seek_to_first();
+                while it.is_valid() {
+                    let (k, val) = it.current().unwrap();
+                    view.push(format!("{}={}", String::from_utf8_lossy(k), String::from_utf8_lossy(val)));
+                    if it.next().is_none() { break; }
+                }
+                view.join(",")
+            };
+            let first = scan(&mut it);
+            let _ = it.seek_to_last();
+            let _ = it.next();
+            for round in 0..3 {
+                db.put(WriteOptions::default(), b"a".to_vec(), format!("{}", round + 2).into_bytes()).unwrap();
+                db.put(WriteOptions::default(), b"b".to_vec(), format!("{}", round + 2).into_bytes()).unwrap();
+                let _ = db.flush_for_verif();
+                db.compact_range(None..None);
+            }
+            let on_disk = v::table_numbers(&o);
+            println!("pinned_table={}", pinned);
+            println!("tables_on_disk={:?}", on_disk);
+            println!("pinned_table_on_disk={}", on_disk.contains(&pinned));
+            let second = scan(&mut it);
+            println!("iterator_view={} then {}", first, second);
+            println!("view_ok={}", first == "a=1,b=1" && second == first);
+        }
         // manifest_codec : edits of trivial moves (file n deleted at level L, added at level L + 1) and a mixed edit are encoded
         // and decoded by the real codec
         "manifest_codec" => {
